@@ -53,6 +53,14 @@ func genRewriteValue(g *Gen) string {
 		if g.Chance(1, 6) {
 			f = f[:1]
 		}
+		if g.Chance(1, 4) {
+			// the alias form and its neighbours (priority zero in every spelling, the root as target): still an SVCB value
+			f = []string{Pick(g, []string{"0", "00", "0", "000", "1", "+0", "-0", "0 "}), Pick(g, []string{".", ".", "..", "example.net", "example.net."})}
+			if g.Chance(1, 4) {
+				f = append(f, Pick(g, []string{"alpn=h3", "port=443", "novalue"}))
+			}
+			return Pick(g, []string{"NOERROR", "noerror", "NoError", "NXDOMAIN"}) + ";" + t + ";" + strings.Join(f, " ")
+		}
 		return "NOERROR;" + t + ";" + strings.Join(f, " ")
 	case 8:
 		// trailing dots: exactly one makes a name fully qualified, the validated string must be the stored one
